@@ -44,9 +44,7 @@ RECURSIVE EncCpsLen(_, _)
 EncCpsLen(s, esc) == IF s = <<>> THEN 0 ELSE Len(EncCp(s[1], esc)) + EncCpsLen(Tail(s), esc)
 
 (***************************************************************************)
-(* Length of the encoding.  Number literals are atomic TLC strings, so     *)
-(* only their length is available here (Len works on strings); Enc itself  *)
-(* (JsonText.tla) needs the literal as bytes and gets it from a table.     *)
+(* Length of the encoding (number literals are code-point sequences).      *)
 (***************************************************************************)
 RECURSIVE EncLen(_, _)
 EncLen(v, esc) ==
